@@ -12,6 +12,12 @@ pub mod irifam {
     pub fn own(s: &str) -> Inner {
         s.to_string()
     }
+    /// the same text in a buffer with spare capacity
+    pub fn own_spare(s: &str) -> Inner {
+        let mut b = String::with_capacity(s.len() + 97);
+        b.push_str(s);
+        b
+    }
     pub trait AsFull {
         fn as_full(&self) -> Option<&Ri>;
     }
@@ -41,6 +47,12 @@ pub mod urifam {
     pub type Inner = Vec<u8>;
     pub fn own(s: &str) -> Inner {
         s.as_bytes().to_vec()
+    }
+    /// the same text in a buffer with spare capacity
+    pub fn own_spare(s: &str) -> Inner {
+        let mut b = Vec::with_capacity(s.len() + 97);
+        b.extend_from_slice(s.as_bytes());
+        b
     }
     pub trait AsFull {
         fn as_full(&self) -> Option<&Ri>;
